@@ -45,6 +45,9 @@ type Hist struct {
 	WTok string
 	// C12: distribution of the derived probes (harvest)
 	ProbeStats map[string]int
+	// C12, document-level tie (docbag.go): the K token (annotated Bag) and the k structure part (keywords of the real
+	// document) of the conv step under construction, set by convCore.
+	KTok, KPart string
 }
 
 // wtok is slot 7 of a conv step: "0", or the held-examples measurement of ConvW.
@@ -462,6 +465,10 @@ func (h *Hist) convCore(i, opt int, o *hx.Out) (doc, same string, changed, bagCh
 		mtok = "m" + h.Intern.DocMembers(doc, strings.HasPrefix(dtok, "E"))
 		o.Count("class:conv-with-definition-members")
 	}
+	h.KTok, h.KPart = h.docTie(i, opt, doc)
+	if h.KTok != "K-" {
+		o.Count("class:conv-with-document-keywords")
+	}
 	o.Count("class:conv")
 	if strings.HasPrefix(doc, "ERR:") {
 		o.Count("conv:unrepresentable")
@@ -514,9 +521,9 @@ func docDiffKeys(a, b string) string {
 func (h *Hist) Conv(i, opt int, o *hx.Out) {
 	l := h.Live[i]
 	_, same, changed, bagChanged, dtok, mtok := h.convCore(i, opt, o)
-	h.Steps = append(h.Steps, fmt.Sprintf("%d conv %d %s 0 %s %s %s ToJSONSchema@%s", i, opt, dtok, l.Snap.BagState, l.Snap.ValState, h.wtok(), shortType(l.S)))
+	h.Steps = append(h.Steps, fmt.Sprintf("%d conv %d %s 0 %s %s %s %s ToJSONSchema@%s", i, opt, dtok, l.Snap.BagState, l.Snap.ValState, h.wtok(), h.KTok, shortType(l.S)))
 	h.Verd = append(h.Verd, fmt.Sprintf("%s:%s", same, idx(changed)))
-	h.Strct = append(h.Strct, "g"+idx(bagChanged)+mtok) // which live Bags were rewritten by this conversion; the members shown
+	h.Strct = append(h.Strct, "g"+idx(bagChanged)+mtok+"!"+h.KPart) // which live Bags were rewritten by this conversion; the members shown; the keywords of the document
 	h.Names = append(h.Names, fmt.Sprintf("conv(%d,opt%d)", i, opt))
 }
 
